@@ -5,13 +5,13 @@ import (
 	"errors"
 	"fmt"
 	"os"
+	"runtime"
 	"sort"
 	"strconv"
 	"strings"
 	"sync"
 	"sync/atomic"
 	"testing"
-	"testing/synctest"
 	"time"
 
 	"github.com/bronlabs/bron-crypto/pkg/base"
@@ -58,10 +58,12 @@ func runC11(c *Ctx) {
 		c11Exhaustive(c, t)
 		c11Random(c, t)
 		c11Flood(c, t)
+		c11Lifetimes(c, t)
 		c11Echo(c, t)
 		c11Runner(c, t)
 	})
 	c11Stress(c)
+	c11WakeRace(c)
 	close(stop)
 	if rc != 0 {
 		c.Violation(fmt.Sprintf("bubble-runner exit code %d", rc))
@@ -153,6 +155,7 @@ type c11Event struct {
 	rid     int
 	exp     []uint64
 	pre     bool
+	gate    bool // r: the call is held between its first unlocked scan and its select until a 'u' event
 	n       int
 	tag     string
 }
@@ -188,9 +191,14 @@ func (e c11Event) token() string {
 		if e.pre {
 			s += ":p"
 		}
+		if e.gate {
+			s += ":g"
+		}
 		return s
 	case 'c':
 		return fmt.Sprintf("c:%d", e.rid)
+	case 'u':
+		return fmt.Sprintf("u:%d", e.rid)
 	default:
 		return "x"
 	}
@@ -202,6 +210,12 @@ func c11Deliver(from uint64, cid string, payload string) c11Event {
 
 func c11Recv(rid int, path []string, local string, exp ...uint64) c11Event {
 	return c11Event{kind: 'r', rid: rid, path: path, local: local, cid: c11Join(path, local), exp: exp}
+}
+
+func c11RecvHeld(rid int, path []string, local string, exp ...uint64) c11Event {
+	e := c11Recv(rid, path, local, exp...)
+	e.gate = true
+	return e
 }
 
 func c11Tokens(evs []c11Event) string {
@@ -285,6 +299,30 @@ type c11Rec struct {
 	done   chan string
 	cancel context.CancelFunc
 	ret    bool
+	hold   *c11HoldCtx
+}
+
+// c11HoldCtx is the context handed to ReceiveFrom by a gated receive.  receiveFrom evaluates
+// ctx.Done() when it enters its select, i.e. after the unlocked scan decided to wait and before the
+// goroutine is parked: blocking there puts the call exactly into the window in which a deposit
+// can only reach it through the buffered notify token.  The checker releases it with a 'u' event.
+type c11HoldCtx struct {
+	context.Context
+	held atomic.Bool
+	gate chan struct{}
+}
+
+func (h *c11HoldCtx) Done() <-chan struct{} {
+	if h.held.Load() {
+		<-h.gate
+	}
+	return h.Context.Done()
+}
+
+func (h *c11HoldCtx) release() {
+	if h.held.CompareAndSwap(true, false) {
+		close(h.gate)
+	}
 }
 
 func c11View(root *network.Router, path []string) *network.Router {
@@ -329,109 +367,46 @@ func c11RenderResults(results map[int]string) string {
 	return strings.Join(parts, ";")
 }
 
-// c11RunTrace drives the real Router through the events, one at a time, waiting for quiescence
-// (synctest.Wait: every goroutine of the bubble durably blocked) after every hand-over, so that
-// the execution is one deterministic linearisation.  Result: "<rid>@<event index>=<outcome>;…".
-func c11RunTrace(t *testing.T, members []uint64, evs []c11Event) (out string) {
-	defer func() {
-		if e := recover(); e != nil {
-			out = "panic:" + strings.ReplaceAll(fmt.Sprint(e), " ", "_")
-		}
-	}()
-	synctest.Test(t, func(t *testing.T) {
-		d := newC11Delivery(1, members, 0)
-		root := network.NewRouter(d)
-		var queue []c11In
-		var recs []*c11Rec
-		results := map[int]string{}
-		settle := func(k int) {
-			synctest.Wait()
-			for {
-				for _, r := range recs {
-					if r.ret {
-						continue
-					}
-					select {
-					case res := <-r.done:
-						r.ret = true
-						results[r.rid] = fmt.Sprintf("%d@%d=%s", r.rid, k, res)
-					default:
-					}
-				}
-				if len(queue) > 0 && d.waiting.Load() {
-					m := queue[0]
-					queue = queue[1:]
-					d.hand <- m
-					synctest.Wait()
-					continue
-				}
-				return
-			}
-		}
-		for k, e := range evs {
-			switch e.kind {
-			case 'd', 'g', 'e', 'f':
-				queue = append(queue, c11Items(e)...)
-			case 'r':
-				ctx, cancel := context.WithCancel(context.Background())
-				if e.pre {
-					cancel()
-				}
-				r := &c11Rec{rid: e.rid, done: make(chan string, 1), cancel: cancel}
-				recs = append(recs, r)
-				view := c11View(root, e.path)
-				ids := make([]sharing.ID, len(e.exp))
-				for i, id := range e.exp {
-					ids[i] = sharing.ID(id)
-				}
-				local := e.local
-				go func() {
-					r.done <- safely(func() string { return c11Res(view.ReceiveFrom(ctx, local, ids...)) })
-				}()
-			case 'c':
-				for _, r := range recs {
-					if r.rid == e.rid {
-						r.cancel()
-					}
-				}
-			case 'x':
-				root.Close()
-			}
-			settle(k)
-		}
-		for _, r := range recs {
-			if !r.ret {
-				results[r.rid] = fmt.Sprintf("%d@-=blocked", r.rid)
-			}
-		}
-		out = c11RenderResults(results)
-		// release everything so that the bubble can end
-		for _, r := range recs {
-			r.cancel()
-		}
-		root.Close()
-		synctest.Wait()
-		for _, r := range recs {
-			if !r.ret {
-				select {
-				case <-r.done:
-				default:
-					out += ";leak:" + strconv.Itoa(r.rid) // a receive that survives cancel+Close
-				}
-			}
-		}
-	})
-	return out
+// c11RunTrace drives the real Router through the events (see c11Drive in c11_life.go).
+// Result: "<rid>@<event index>=<outcome>;…" followed, when the router's accounting state is
+// observable, by "|b=<buffered after every event>|x=<number of mailbox objects after every event>".
+func c11RunTrace(t *testing.T, members []uint64, evs []c11Event) (out string, o c11Outcome) {
+	o = c11Drive(t, members, evs)
+	if o.panicked != "" {
+		return "panic:" + o.panicked, o
+	}
+	out = c11RenderResults(o.results)
+	for _, rid := range o.leaked {
+		out += ";leak:" + strconv.Itoa(rid) // a receive that survives cancel+Close
+	}
+	if o.observed {
+		out += "|b=" + c11Ints(o.buf) + "|x=" + c11Ints(o.box)
+	}
+	return out, o
+}
+
+func c11Ints(xs []int) string {
+	parts := make([]string, len(xs))
+	for i, x := range xs {
+		parts[i] = strconv.Itoa(x)
+	}
+	return joinComma(parts)
 }
 
 func c11EmitTrace(c *Ctx, t *testing.T, members []uint64, evs []c11Event) string {
 	lhs := fmt.Sprintf("tr %s %d %s", c11IDs(members), c11Bound, c11Tokens(evs))
 	c11Tick(lhs)
-	res := c11RunTrace(t, members, evs)
+	res, o := c11RunTrace(t, members, evs)
 	if strings.HasPrefix(res, "panic:") || strings.Contains(res, "leak:") {
 		c.Violation("router trace " + lhs + " => " + res)
 	}
+	if o.accViol != "" {
+		c.Violation("router accounting: " + o.accViol + " in trace " + lhs)
+	}
 	c.Emit(lhs, res)
+	if i := strings.Index(res, "|"); i >= 0 {
+		res = res[:i]
+	}
 	for _, part := range strings.Split(res, ";") {
 		if i := strings.Index(part, "="); i >= 0 {
 			kind := part[i+1:]
@@ -532,6 +507,19 @@ func c11Handcrafted(c *Ctx, t *testing.T) {
 		{c11Deliver(2, "c", "aa"), {kind: 'x'}, c11Recv(0, nil, "c", 2)},
 		// conflict from an unrequested sender poisons the box as well; second conflict re-tags
 		{c11Recv(0, nil, "c", 2), c11Deliver(3, "c", "aa"), c11Deliver(3, "c", "bb"), c11Deliver(4, "c", "aa"), c11Deliver(4, "c", "bb"), c11Recv(1, nil, "c", 4)},
+		// held between the unlocked scan and select (the window that only the buffered notify token covers):
+		// deposits, a conflict, a cancellation, Close, a transport failure arrive in that window
+		{c11RecvHeld(0, nil, "c", 2, 3), c11Deliver(2, "c", "aa"), c11Deliver(3, "c", "bb"), {kind: 'u', rid: 0}},
+		{c11Deliver(2, "c", "aa"), c11RecvHeld(0, nil, "c", 2, 3), c11Deliver(3, "c", "bb"), {kind: 'u', rid: 0}, c11Deliver(3, "c", "bb")},
+		{c11RecvHeld(0, a, "x", 2, 3), c11Deliver(2, "a/x", "aa"), c11Deliver(2, "a/x", "cc"), {kind: 'u', rid: 0}, c11Recv(1, a, "x", 2)},
+		{c11RecvHeld(0, nil, "c", 2), {kind: 'c', rid: 0}, {kind: 'u', rid: 0}, c11Deliver(2, "c", "aa"), c11Recv(1, nil, "c", 2)},
+		{c11RecvHeld(0, nil, "c", 2), {kind: 'c', rid: 0}, c11Deliver(2, "c", "aa"), {kind: 'u', rid: 0}},
+		{c11RecvHeld(0, nil, "c", 2), {kind: 'x'}, c11Deliver(2, "c", "aa"), {kind: 'u', rid: 0}},
+		{c11RecvHeld(0, nil, "c", 2), c11Deliver(2, "c", "aa"), {kind: 'x'}, {kind: 'u', rid: 0}},
+		{c11RecvHeld(0, nil, "c", 2), {kind: 'e'}, {kind: 'u', rid: 0}, c11Recv(1, nil, "x", 2)},
+		{c11RecvHeld(0, nil, "c", 2), c11RecvHeld(1, a, "c", 3), c11Deliver(3, "a/c", "bb"), c11Deliver(2, "c", "aa"), {kind: 'u', rid: 1}, {kind: 'u', rid: 0}},
+		{c11RecvHeld(0, nil, "c", 2), c11Deliver(2, "c", "aa"), c11Recv(1, nil, "c", 2), c11Recv(2, nil, "x", 3), c11Deliver(3, "x", "bb")},
+		{c11RecvHeld(0, nil, "c", 2, 3), {kind: 'u', rid: 0}, c11Deliver(2, "c", "aa"), c11Deliver(3, "c", "bb")},
 		// re-use after a completed collection
 		{c11Deliver(2, "c", "aa"), c11Recv(0, nil, "c", 2), c11Deliver(2, "c", "bb"), c11Recv(1, nil, "c", 2)},
 	}
@@ -568,14 +556,14 @@ func c11Exhaustive(c *Ctx, t *testing.T) {
 	base4 := []c11Event{c11Deliver(2, "a/c", "aa"), c11Deliver(3, "a/c", "bb"), c11Deliver(2, "x", "cc"), c11Deliver(3, "x", "dd")}
 	extras := [][]c11Event{
 		{},
-		{c11Deliver(2, "a/c", "aa")},                              // identical retransmission
-		{c11Deliver(2, "a/c", "ee")},                              // conflicting retransmission
-		{c11Deliver(9, "a/c", "ee")},                              // non-member
-		{c11Deliver(2, "ac", "ee")},                               // other id (separator dropped)
-		{c11Deliver(2, "a/c", "aa"), c11Deliver(3, "x", "dd")},    // two identical
-		{c11Deliver(3, "x", "ee"), c11Deliver(2, "a/c", "aa")},    // one conflicting, one identical
-		{c11Deliver(4, "a/c", "ee"), c11Deliver(4, "a/c", "ff")},  // unrequested sender equivocates
-		{c11Deliver(2, "a/c", "ee"), c11Deliver(3, "a/c", "ff")},  // two senders equivocate: blame depends on order
+		{c11Deliver(2, "a/c", "aa")}, // identical retransmission
+		{c11Deliver(2, "a/c", "ee")}, // conflicting retransmission
+		{c11Deliver(9, "a/c", "ee")}, // non-member
+		{c11Deliver(2, "ac", "ee")},  // other id (separator dropped)
+		{c11Deliver(2, "a/c", "aa"), c11Deliver(3, "x", "dd")},   // two identical
+		{c11Deliver(3, "x", "ee"), c11Deliver(2, "a/c", "aa")},   // one conflicting, one identical
+		{c11Deliver(4, "a/c", "ee"), c11Deliver(4, "a/c", "ff")}, // unrequested sender equivocates
+		{c11Deliver(2, "a/c", "ee"), c11Deliver(3, "a/c", "ff")}, // two senders equivocate: blame depends on order
 		{c11Deliver(2, "a/c", "aa"), c11Deliver(2, "a/c", "ee"), c11Deliver(2, "x", "cc")},
 	}
 	maxN := 5
@@ -637,6 +625,23 @@ func c11Exhaustive(c *Ctx, t *testing.T) {
 						c11EmitTrace(c, t, c11Members, tr)
 						c.Count("exhaustive.cancel-retry")
 					}
+					// family 3: receive at i held before its select, released at j
+					if j > i && (c.Thorough() || (i+j)%2 == 1) {
+						tr := make([]c11Event, 0, n+3)
+						for k := 0; k <= n; k++ {
+							if k == i {
+								tr = append(tr, c11RecvHeld(0, a, "c", 2, 3))
+							}
+							if k == j {
+								tr = append(tr, c11Event{kind: 'u', rid: 0})
+							}
+							if k < n {
+								tr = append(tr, ordered[k])
+							}
+						}
+						c11EmitTrace(c, t, c11Members, tr)
+						c.Count("exhaustive.held-release")
+					}
 				}
 			}
 		})
@@ -672,11 +677,16 @@ func c11RandomTrace(r *Rng) []c11Event {
 			exp := [][]uint64{{2}, {3}, {2, 3}, {2, 3}, {2, 3, 4}, {4}, {}, {2, 9}, {3, 3}}[r.IntN(9)]
 			e := c11Recv(rid, k.path, k.local, exp...)
 			e.pre = r.IntN(10) == 0
+			e.gate = !e.pre && r.IntN(6) == 0
 			rid++
 			evs = append(evs, e)
 		case x < 91:
 			if rid > 0 {
-				evs = append(evs, c11Event{kind: 'c', rid: r.IntN(rid)})
+				kind := byte('c')
+				if r.IntN(3) == 0 {
+					kind = 'u'
+				}
+				evs = append(evs, c11Event{kind: kind, rid: r.IntN(rid)})
 			}
 		case x < 94:
 			evs = append(evs, c11Event{kind: 'x'})
@@ -764,7 +774,13 @@ func c11Stress(c *Ctx) {
 	if c.Thorough() {
 		n = 4000
 	}
+	hangs := 0
 	for it := 0; it < n; it++ {
+		if hangs >= 2 {
+			// two receives already hung for a minute each (reported): more of them add nothing
+			c.Note("stress: stopped after two hung traces")
+			break
+		}
 		ncid := 1 + r.IntN(5)
 		var msgs, recvs []c11Event
 		for i := 0; i < ncid; i++ {
@@ -818,12 +834,82 @@ func c11Stress(c *Ctx) {
 		wg.Wait()
 		hung := ctx.Err() != nil
 		cancel()
+		// the accounting invariant holds whenever mu is free, under any schedule
+		if pk := newC11Peek(root); pk.ok {
+			if b, _, held := pk.read(true); b != held {
+				c.Violation(fmt.Sprintf("router accounting: the counter says buffered=%d but the mailboxes hold %d undelivered messages after %s", b, held, lhs))
+			}
+		}
 		root.Close()
 		res := strings.Join(results, ";")
 		if hung {
+			hangs++
 			c.Violation("receive did not return within 60s although all its messages were delivered: " + lhs + " => " + res)
 		}
 		c.Count("stress")
 		c.Emit(lhs, res)
 	}
+}
+
+// c11WakeRace hunts lost wake-ups on the real scheduler: on ONE router, round after round, a receive
+// for two senders runs concurrently with the two deliveries, the second of which follows the first
+// after a varying, very short delay — so that it is deposited while the receiver is somewhere
+// between "woken by the first", "re-scanning under the lock" and "back in select".  Whatever the
+// interleaving, both messages are deposited, so the receive must complete with exactly them
+// (progress_complete); a receive that does not return within 20 s is a deadlock.
+func c11WakeRace(c *Ctx) {
+	r := NewRng(c.Seed, 1106)
+	rounds := 30000
+	if c.Thorough() {
+		rounds = 400000
+	}
+	lhs := fmt.Sprintf("race %s %d %d", c11IDs(c11Members), c11Bound, rounds)
+	c11Tick(lhs)
+	d := newC11Delivery(1, c11Members, 8)
+	root := network.NewRouter(d)
+	ok, bad := 0, "-"
+	for i := 0; i < rounds; i++ {
+		cid := "w" + strconv.Itoa(i)
+		view, local := root, cid
+		if i%3 == 1 {
+			view = root.Namespaced("n")
+			cid = "n/" + cid
+		}
+		p2, p3 := []byte{2, byte(i), byte(i >> 8)}, []byte{3, byte(i), byte(i >> 8)}
+		want := fmt.Sprintf("ok:2=%s,3=%s", hexBytes(p2), hexBytes(p3))
+		done := make(chan string, 1)
+		ctx, cancel := context.WithTimeout(context.Background(), 20*time.Second)
+		go func() {
+			done <- safely(func() string { return c11Res(view.ReceiveFrom(ctx, local, 2, 3)) })
+		}()
+		for j := r.IntN(4); j > 0; j-- {
+			runtime.Gosched()
+		}
+		d.hand <- c11In{from: 2, msg: c11Encode(cid, p2)}
+		if i%2 == 0 {
+			d.hand <- c11In{from: 2, msg: c11Encode(cid, p2)} // identical retransmission: one more signal-free deposit
+		}
+		for j := r.IntN(6); j > 0; j-- {
+			runtime.Gosched()
+		}
+		d.hand <- c11In{from: 3, msg: c11Encode(cid, p3)}
+		res := <-done
+		cancel()
+		if res != want {
+			bad = fmt.Sprintf("%d:%s", i, res)
+			c.Violation(fmt.Sprintf("receive of round %d did not complete (%s) although both its messages were delivered and nothing else is outstanding: %s", i, res, lhs))
+			break
+		}
+		ok++
+		c11Tick(lhs)
+	}
+	if pk := newC11Peek(root); pk.ok && bad == "-" {
+		if b, x, held := pk.read(true); b != held || b != 0 || x != 0 {
+			c.Violation(fmt.Sprintf("router accounting after %s: buffered=%d, mailboxes hold %d messages, %d mailbox objects (all exchanges completed)", lhs, b, held, x))
+		}
+	}
+	root.Close()
+	c.Count("race")
+	c.Stats["race.rounds"] += ok
+	c.Emit(lhs, fmt.Sprintf("ok=%d;bad=%s", ok, bad))
 }
